@@ -24,10 +24,10 @@ func init() {
 
 const (
 	c20Pool  = 4
-	c20Kinds = 6 // Id, Dot, Add x3, Call, Clone, RenderWithFile(shared)
+	c20Kinds = 7 // Id, Dot, Add x3, Call, Clone, RenderWithFile(shared), Tag
 )
 
-var c20KindNames = []string{"Id", "Dot", "Add3", "Call", "Clone", "RenderWithSharedFile"}
+var c20KindNames = []string{"Id", "Dot", "Add3", "Call", "Clone", "RenderWithSharedFile", "Tag"}
 
 // c20NullRoot selects the original the pool starts with: Id(r), or an empty one (Null()).
 var c20NullRoot bool
@@ -126,6 +126,10 @@ func c20Build(hist []int) (w *c20World, ok bool) {
 			w.model = append(w.model, &c20Model{parent: si, snap: w.accept(si)})
 		case 5:
 			c20WithFile(s, w.shared)
+		case 6:
+			n := name(0)
+			s.Tag(map[string]string{n: "v"})
+			m.own = append(m.own, "`"+n+":\"v\"`")
 		}
 		w.lastOp = op
 	}
@@ -193,7 +197,7 @@ func c20Invariant(w *c20World) string {
 }
 
 func runC20(r *ev.Recorder) {
-	depth := 8
+	depth := 7
 	if r.Tier == ev.Thorough {
 		depth = 10
 		r.SetDeadline(40 * 60 * 1e9)
@@ -201,9 +205,9 @@ func runC20(r *ev.Recorder) {
 		r.SetDeadline(5 * 60 * 1e9)
 	}
 	r.Rule = fmt.Sprintf("explicit-state BFS over the real Statement API: pool of <= %d statements (one original Id(r) plus clones, clones of clones included); operations on any pool member: "+
-		"Id (1 token), Dot (2), Add(x,y,z) (3), Call (1 group), Clone, RenderWithFile with one File shared by the whole history; two roots (Id(r) and an empty Null() original, the latter 2 levels less deep); all histories of length <= %d, de-duplicated on (parent, len, cap, raw rendering) of every statement. "+
+		"Id (1 token), Dot (2), Add(x,y,z) (3), Call (1 group), Tag (1), Clone, RenderWithFile with one File shared by the whole history; two roots (Id(r) and an empty Null() original, the latter 2 levels less deep); all histories of length <= %d, de-duplicated on (parent, len, cap, raw rendering) of every statement. "+
 		"Invariant in every state (list model): an original renders exactly its own tokens; a clone renders its parent (as of clone time or as of now - the property leaves that open) followed by exactly its own tokens in order; "+
-		"a fresh clone renders like its original; every statement rendered with the shared File equals its rendering with a fresh File. Plus 1,820 nesting cases: originals of 1..13 items, two clones with tails of 0..3 items, one nested as a call argument inside the other at every position, rendered twice. Slice growth 1->2->4->8 makes cap > len reachable within 3 appends", c20Pool, depth)
+		"a fresh clone renders like its original; every statement rendered with the shared File equals its rendering with a fresh File. Plus chains of 2..1000 nested clones, and 1,820 nesting cases: originals of 1..13 items, two clones with tails of 0..3 items, one nested as a call argument inside the other at every position, rendered twice. Slice growth 1->2->4->8 makes cap > len reachable within 3 appends", c20Pool, depth)
 	r.Assume = []string{"both snapshot and live-view semantics of Clone are accepted (the property does not choose)", "histories longer than the depth bound are outside the bound"}
 
 	var states, transitions int64
@@ -269,6 +273,17 @@ func runC20(r *ev.Recorder) {
 		r.NotExhaustive("nesting cases skipped because the search already found violations")
 		return
 	}
+	for _, depth := range []int{2, 10, 99, 100, 101, 150, 1000} {
+		for _, withTokens := range []bool{false, true} {
+			msg := c20DeepChain(depth, withTokens)
+			r.Eval(1)
+			desc := fmt.Sprintf("chain of %d clones (token appended at every level: %v)", depth, withTokens)
+			r.Distinct(desc)
+			if msg != "" {
+				r.Violate(ev.Violation{Signature: "c20:deep-chain", What: desc + ": " + msg, Case: ev.JSON(c20Case{Nested: []int{depth, map[bool]int{false: 0, true: 1}[withTokens]}}), Detail: msg})
+			}
+		}
+	}
 	for l := 1; l <= 13; l++ {
 		for ta := 0; ta <= 3; ta++ {
 			for tb := 0; tb <= 3; tb++ {
@@ -284,6 +299,37 @@ func runC20(r *ev.Recorder) {
 			}
 		}
 	}
+}
+
+// c20DeepChain: a chain of `depth` clones, each (or none) with a token appended; the last clone,
+// a middle one and the original must render per the list model.
+func c20DeepChain(depth int, withTokens bool) string {
+	cur := jen.Id("r")
+	want := []string{"r"}
+	var mid *jen.Statement
+	var midWant string
+	for i := 0; i < depth; i++ {
+		cur = cur.Clone()
+		if withTokens {
+			n := fmt.Sprintf("t%d", i)
+			cur.Id(n)
+			want = append(want, n)
+		}
+		if i == depth/2 {
+			mid, midWant = cur, strings.Join(want, " ")
+		}
+	}
+	if got := c20Render(cur); got != strings.Join(want, " ") {
+		return fmt.Sprintf("the last of %d nested clones renders %q, want %q", depth, jh.Short(got, 200), jh.Short(strings.Join(want, " "), 200))
+	}
+	if got := c20Render(mid); got != midWant {
+		return fmt.Sprintf("clone %d of %d renders %q, want %q", depth/2, depth, jh.Short(got, 200), jh.Short(midWant, 200))
+	}
+	// inside a list the chain must still count as a real item
+	if got, w := c20Render(jen.Id("f").Call(cur, jen.Id("z"))), "f ("+strings.Join(want, " ")+",z)"; got != w {
+		return fmt.Sprintf("f(<chain of %d clones>, z) renders %q, want %q", depth, jh.Short(got, 200), jh.Short(w, 200))
+	}
+	return ""
 }
 
 // c20Nested builds h (l items), a = h.Clone()+ta items, b = h.Clone()+tb items, nests b as a call
@@ -351,6 +397,10 @@ func replayC20(raw json.RawMessage) (bool, string) {
 	var c c20Case
 	if err := json.Unmarshal(raw, &c); err != nil {
 		return true, "bad case"
+	}
+	if len(c.Nested) == 2 {
+		msg := c20DeepChain(c.Nested[0], c.Nested[1] == 1)
+		return msg == "", fmt.Sprintf("deep chain %v: %s", c.Nested, msg)
 	}
 	if len(c.Nested) == 4 {
 		msg := c20Nested(c.Nested[0], c.Nested[1], c.Nested[2], c.Nested[3])
